@@ -26,7 +26,7 @@ ASSUMPTIONS = ['keystrokes and child output are injected into harness-side buffe
 EXHAUSTIVE = False      # complete only within the deviation bound, see BOUND_NOTE
 BOUND_NOTE = 'all schedules with at most 1 (quick) / 2 (thorough) non-default placements of peer actions are enumerated completely'
 REQUIRED_FLAGS = {'second_interact': 1, 'escape_first': 1, 'escape_middle': 1, 'escape_repeated': 1, 'exit_ending': 1, 'filters': 1, 'pending_flush': 1,
-                  'interleaved': 1}
+                  'interleaved': 1, 'several_short_writes_for_one_piece': 1, 'burst_of_exactly_the_read_size': 1, 'filter_produces_escape': 1}
 
 ESC = b'\x1d'
 ALPHA = [b'a', ESC, b'\xc3', b'\xa9', b'\r']
@@ -81,7 +81,11 @@ def shrink_in(b):          # length-changing (shorter)
     return b.replace(b'a', b'')
 
 
-IN_FILTERS = {'in': dup_in, 'both': dup_in, 'expand-in': expand_in, 'shrink-in': shrink_in}
+def swap_in(b):            # produces and rewrites the escape byte: 'a' ends the session, the raw escape key is an ordinary 'a'
+    return b.replace(b'a', b'\x00').replace(ESC, b'a').replace(b'\x00', ESC)
+
+
+IN_FILTERS = {'in': dup_in, 'both': dup_in, 'expand-in': expand_in, 'shrink-in': shrink_in, 'swap-in': swap_in}
 OUT_FILTERS = {'out': upper_out, 'both': upper_out, 'strip-out': strip_out}
 
 
@@ -98,6 +102,13 @@ CONFIGS += [dict(filt='strip-out', mode='bytes', esc='default', poll=False, pend
             dict(filt='none', mode='bytes', esc='default', poll=False, pending=True),
             dict(filt='both', mode='utf-8', esc='default', poll=True, pending=True),
             dict(filt='in', mode='utf-8', esc='q', poll=False, pending=True),
+            dict(filt='swap-in', mode='bytes', esc='default', poll=False, pending=False),
+            # the child takes one byte per write (a nearly full input queue): every longer piece needs several short writes
+            dict(filt='none', mode='bytes', esc='default', poll=False, pending=False, write_cap=1),
+            dict(filt='expand-in', mode='bytes', esc='default', poll=True, pending=False, write_cap=1),
+            # bursts that end exactly on interact()'s read size, in both directions
+            dict(filt='none', mode='bytes', esc='default', poll=False, pending=False, burst=1000),
+            dict(filt='none', mode='bytes', esc='default', poll=True, pending=False, burst=1000),
             dict(filt='none', mode='bytes', esc='default', poll=False, pending=False, twice=True),
             dict(filt='both', mode='utf-8', esc='default', poll=True, pending=True, twice=True)]
 
@@ -108,7 +119,7 @@ def bounds(tier):
 
 
 def is_base(i):
-    return i in (0, 1) or CONFIGS[i]['filt'] in ('strip-out', 'expand-in', 'shrink-in')
+    return i in (0, 1) or CONFIGS[i]['filt'] in ('strip-out', 'expand-in', 'shrink-in', 'swap-in') or CONFIGS[i].get('write_cap')
 
 
 def tasks(tier):
@@ -152,6 +163,8 @@ def run_interact(ch, cfg, pieces, merge, ending, logs=False):
         pending = S('PEND') if cfg['pending'] else S('')
         if cfg['pending']:
             sp.buffer = pending
+        if cfg.get('write_cap'):
+            env.write_cap[sp.hs_master] = cfg['write_cap']
         mode_before = termios.tcgetattr(os_)
         fake = FakeStdout()
         sys.stdout = fake
@@ -169,14 +182,16 @@ def run_interact(ch, cfg, pieces, merge, ending, logs=False):
                 typed += p
                 env.add('fn', (lambda d=p: env.hbuf[os_].extend(d)))
             else:
-                c = (CHILD_CHUNKS_X if cfg['filt'] == 'strip-out' else CHILD_CHUNKS)[ci]
+                c = ([b'x' * cfg['burst'], b'yz'] if cfg.get('burst') else CHILD_CHUNKS_X if cfg['filt'] == 'strip-out' else CHILD_CHUNKS)[ci]
                 ci += 1
                 child_out.append(c)
                 env.add('w', c, fd=sp.hs_slave)
         if ending == 'escape':
             if escbyte is not None:
-                typed += escbyte + b'zz'
-                env.add('fn', (lambda: env.hbuf[os_].extend(escbyte + b'zz')))
+                # the key that ends the session: the escape character, or what the input filter turns into it
+                endkey = b'a' if cfg['filt'] == 'swap-in' else escbyte
+                typed += endkey + b'zz'
+                env.add('fn', (lambda: env.hbuf[os_].extend(endkey + b'zz')))
             else:
                 env.add('exit', (sp.hs_proc, 0))
         else:
@@ -302,6 +317,10 @@ def run_interact(ch, cfg, pieces, merge, ending, logs=False):
     return obs, viol
 
 
+def cfg_tag(cfg):
+    return ('+write-cap' if cfg.get('write_cap') else '') + ('+burst' if cfg.get('burst') else '')
+
+
 def key_streams(maxn):
     for n in range(0, maxn + 1):
         for t in itertools.product(ALPHA, repeat=n):
@@ -313,10 +332,12 @@ def merges(nk, nc):
         yield tuple('c' if i in pos else 'k' for i in range(nk + nc))
 
 
-def scripts(tier, base=True):
+def scripts(tier, base=True, cfg=None):
     q = tier == 'quick'
     maxn = (2 if base else 1) if q else (3 if base else 2)
-    extra = [(ESC, b'a', ESC), (b'a', ESC, b'a', ESC), (ESC, ESC), (b'\xc3', b'\xa9', ESC, b'a')]
+    extra = [(ESC, b'a', ESC), (b'a', ESC, b'a', ESC), (ESC, ESC), (b'\xc3', b'\xa9', ESC, b'a'), (b'a', b'\r', b'a', b'a')]
+    if cfg and cfg.get('burst'):
+        extra += [(b'a' * cfg['burst'],), (b'a' * cfg['burst'], b'\r')]
     seen = set()
     streams = [t for _, t in key_streams(maxn)] + extra
     for t in streams:
@@ -341,7 +362,7 @@ def run_task(task):
     acc = Acc()
     cfg = CONFIGS[task['cfg']]
     bound = 1 if task['tier'] == 'quick' else 2
-    for k_, (t, pieces, mg) in enumerate(scripts(task['tier'], base=is_base(task['cfg']))):
+    for k_, (t, pieces, mg) in enumerate(scripts(task['tier'], base=is_base(task['cfg']), cfg=cfg)):
         if 'part' in task and k_ % task['parts'] != task['part']:
             continue
         def run(ch):
@@ -368,13 +389,19 @@ def run_task(task):
                 acc.flags['pending_flush'] += 1
             if obs.get('second'):
                 acc.flags['second_interact'] += 1
+            if cfg.get('write_cap') and max(len(p_) for p_ in pieces + [b'']) >= 3:
+                acc.flags['several_short_writes_for_one_piece'] += 1
+            if cfg.get('burst') and 'c' in mg:
+                acc.flags['burst_of_exactly_the_read_size'] += 1
+            if cfg['filt'] == 'swap-in':
+                acc.flags['filter_produces_escape'] += 1
             if 'c' in mg and 'k' in mg:
                 acc.flags['interleaved'] += 1
             if nt:
                 acc.nontrivial += 1
             acc.outcomes['%s/%s' % ('viol:' + viol[0] if viol else 'ok', 'esc' if obs.get('escaped') else 'noesc')] += 1
             if viol:
-                acc.violation('%s:%s:esc=%s:%s' % (cfg['mode'], cfg['filt'], cfg['esc'], viol[0]),
+                acc.violation('%s:%s%s:esc=%s:%s' % (cfg['mode'], cfg['filt'], cfg_tag(cfg), cfg['esc'], viol[0]),
                               'keys %r pieces %r merge %r ending %s: %s' % (stream, pieces, mg, task['ending'], viol[1]),
                               dict(task=task, pieces=pieces, merge=list(mg), choices=ch.choices()))
     acc.states += 1
@@ -390,5 +417,5 @@ def replay(spec):
     obs, viol = run_interact(Chooser(spec['choices']), cfg, spec['pieces'], tuple(spec['merge']), task['ending'])
     out = {'observation': {k: repr(v) for k, v in obs.items()}, 'violation': None}
     if viol:
-        out['violation'] = {'key': '%s:%s:esc=%s:%s' % (cfg['mode'], cfg['filt'], cfg['esc'], viol[0]), 'msg': viol[1]}
+        out['violation'] = {'key': '%s:%s%s:esc=%s:%s' % (cfg['mode'], cfg['filt'], cfg_tag(cfg), cfg['esc'], viol[0]), 'msg': viol[1]}
     return out
